@@ -587,6 +587,10 @@ func runC13(ctx *core.Ctx) {
 					both(c13Args{c13Graph: g, Mode: "pct", Seed: ctx.Rng.Int63n(1 << 30), Budget: ctx.Pick(2, 8)})
 					ctx.Count("roots-shared-" + sh.name)
 				}
+				// the same selection free-running (no yield control, jittering visitors): the dependents of the root really
+				// run skip() / vertex.descendents at the same time
+				ctx.Add("trav.free", c13Args{c13Graph: c13Graph{N: sh.n, Edges: sh.edges, Reverse: rev, Roots: []int{r}}, Mode: "free", Seed: ctx.Rng.Int63n(1 << 30), Budget: ctx.Pick(10, 40)})
+				ctx.Count("free-running-roots-shared")
 			}
 		}
 	}
